@@ -108,4 +108,89 @@ theorem seg_eq_model (ref est : Ivals) :
     | error e => rfl
     | ok o => simp [Except.map, bind, Except.bind, pure, Except.pure, pyMinNum_conv]
 
+/-! ### merge_chord_intervals -/
+
+/-- the rows the hand model fuses: interval `i` with the encoding of label `i` as its token -/
+def tokenRows (iv : Ivals) (rs : List Chord.Encoded) : LI Chord.Encoded := (iv.zip rs).map fun p => (p.1.1, p.1.2, p.2)
+
+theorem zip5_eq (iv : Ivals) (rs : List Chord.Encoded) :
+    List.zip (col0 iv) (List.zip (col1 iv) (List.zip (rs.map (·.1)) (List.zip (rs.map (·.2.1)) (rs.map (·.2.2)))))
+      = tokenRows iv rs := by
+  induction iv generalizing rs with
+  | nil => simp [tokenRows, col0, col1]
+  | cons a iv ih =>
+    cases rs with
+    | nil => simp [tokenRows, col0, col1]
+    | cons r rs => simp only [tokenRows, col0, col1, List.map_cons, List.zip_cons_cons] at ih ⊢; rw [ih]
+
+theorem anyB_rowNeMask_some (st p : List Int) : anyB (rowNeMask st (some p)) = decide (st ≠ p) := by
+  unfold rowNeMask
+  by_cases hl : st.length = p.length
+  · simp only [hl, if_true]
+    induction st generalizing p with
+    | nil => cases p with
+      | nil => rfl
+      | cons b p => simp at hl
+    | cons a st ih =>
+      cases p with
+      | nil => simp at hl
+      | cons b p =>
+        have := ih p (by simpa using hl)
+        simp only [anyB, List.zipWith_cons_cons, List.any_cons] at this ⊢
+        rw [this]
+        by_cases hab : a = b <;> simp [hab]
+  · have : st ≠ p := fun e => hl (by rw [e])
+    simp [hl, this, anyB]
+
+theorem setLastEnd_snoc (done : Ivals) (cs ce e : Rat) : setLastEnd (done ++ [(cs, ce)]) e = .ok (done ++ [(cs, e)]) := by
+  simp [setLastEnd]
+
+/-- the loop after at least one row: `merged_ivs` is the finished rows plus the open row, the `prev_*` hold its token -/
+theorem merge_chord_loop_open (rows : LI Chord.Encoded) (p : Chord.Encoded) (done : Ivals) (cs ce : Rat) :
+    ∃ a b c, Mir.Gen.chord.merge_chord_intervals_loop1 rows (some p.1) (some p.2.1) (some p.2.2)
+        (done ++ [(cs, ce)]) = .ok (a, b, c, done ++ mergeChordAux p cs ce rows) := by
+  induction rows generalizing p done cs ce with
+  | nil => exact ⟨_, _, _, rfl⟩
+  | cons x r ih =>
+    obtain ⟨s, e, t⟩ := x
+    by_cases ht : t = p
+    · subst ht
+      obtain ⟨a, b, c, h⟩ := ih t done cs e
+      refine ⟨a, b, c, ?_⟩
+      simp [Mir.Gen.chord.merge_chord_intervals_loop1, anyB_rowNeMask_some, setLastEnd_snoc, mergeChordAux, h]
+    · obtain ⟨a, b, c, h⟩ := ih t (done ++ [(cs, ce)]) s e
+      refine ⟨a, b, c, ?_⟩
+      have hc : (decide (some t.1 ≠ some p.1) || anyB (rowNeMask t.2.1 (some p.2.1)) || decide (some t.2.2 ≠ some p.2.2))
+          = true := by
+        rw [anyB_rowNeMask_some]
+        by_contra hcon
+        simp only [Bool.or_eq_true, decide_eq_true_eq, not_or, ne_eq, not_not, Option.some.injEq] at hcon
+        exact ht (Prod.ext hcon.1.1 (Prod.ext hcon.1.2 hcon.2))
+      simp only [Mir.Gen.chord.merge_chord_intervals_loop1, hc, if_true, PyI.append, ok_bind, pure_bind]
+      simp only [mergeChordAux, ht, if_false]
+      simpa using h
+
+theorem merge_chord_loop_eq (rows : LI Chord.Encoded) :
+    ∃ a b c, Mir.Gen.chord.merge_chord_intervals_loop1 rows none none none [] = .ok (a, b, c, mergeChord rows) := by
+  cases rows with
+  | nil => exact ⟨_, _, _, rfl⟩
+  | cons x r =>
+    obtain ⟨s, e, t⟩ := x
+    obtain ⟨a, b, c, h⟩ := merge_chord_loop_open r t [] s e
+    refine ⟨a, b, c, ?_⟩
+    simp only [List.nil_append] at h
+    simp [Mir.Gen.chord.merge_chord_intervals_loop1, PyI.append, mergeChord, h]
+
+/-- `chord.merge_chord_intervals` for ALL interval lists and label lists (of any lengths): the labels are encoded by the
+    extern `encode_many(labels, True)` (the first invalid label raises) and neighbours with equal encodings are fused -/
+theorem merge_chord_intervals_eq_model (iv : Ivals) (labels : List String) :
+    Mir.Gen.chord.merge_chord_intervals iv labels
+      = (Chord.encodeAll true (labels.map String.toList)).map fun rs => mergeChord (tokenRows iv rs) := by
+  simp only [Mir.Gen.chord.merge_chord_intervals, Chord.pyEncodeMany]
+  rcases Chord.encodeAll true (labels.map String.toList) with e | rs
+  · rfl
+  · obtain ⟨a, b, c, h⟩ := merge_chord_loop_eq (tokenRows iv rs)
+    simp only [ok_bind, zip5_eq, h]
+    rfl
+
 end Mir.C12.Gen
